@@ -37,7 +37,7 @@ checkpoint. -/
 theorem gate_v2_sound (U : Univ) (cfg : Cfg) (q : Req) (r : BResp) (bs : List Nat)
     (h : gateBatch U cfg q r = .ok bs true) :
     cfg.require ≤ q.baseHeight ∧ ∃ cp, r.cp = some cp ∧ cp.isV2 = true ∧ cp.onePayout = true ∧
-      sameId U cp.blk q.base = true ∧ cp.commitOk = true ∧ r.blocks = some bs ∧
+      sameId U cp.blk q.base = true ∧ cp.commitOk = true ∧ (U cp.blk).orphan = true ∧ r.blocks = some bs ∧
       bs.length = q.hdrs.length ∧ sameId U (bs.getLastD 0) (q.hdrs.getLastD 0) = true ∧
       validateChain U cp.genuine cp.blk bs = true :=
   gateBatch_ok_true cfg q r bs h
@@ -119,6 +119,16 @@ theorem relay_header_bans (U : Univ) (cfg : Cfg) (n : Node) (h : Nat)
     (hpow : (U h).pow = false) : gateRelayHeader U cfg n h = .ban := by
   simp only [gateRelayHeader, hp, hnew, hpow]; rfl
 
+/-- a header that fails the work test of its (known) parent is banned **whether or not it
+attaches to the tip**: the parent's target is header-level data the node holds for every block it
+stores, and a header's ID is the header hash itself (unlike an outline's), so the test is
+meaningful for a parent that is an earlier block of the best chain or a side-chain block. -/
+theorem weak_header_banned_off_tip (U : Univ) (cfg : Cfg) (n : Node) (h : Nat)
+    (hp : n.known.contains (U h).parent = true) (hnew : n.known.any (sameId U h) = false)
+    (hpow : (U h).pow = false) (_hoff : (U h).parent ≠ (U n.tip).cid) :
+    gateRelayHeader U cfg n h = .ban :=
+  relay_header_bans U cfg n h hp hnew hpow
+
 /-- (repaired defect) below the require height a valid relayed header that attaches to the tip
 flips the peer to unsynced, so the sync loop fetches the (possibly v1) block -/
 theorem relay_header_v1_resyncs (U : Univ) (cfg : Cfg) (n : Node) (h : Nat)
@@ -167,11 +177,11 @@ right number of blocks ending in the right tip, one of which fails `ValidateBloc
 genuine state chain, is answered with `ban`. -/
 theorem invalid_v2_block_bans (U : Univ) (cfg : Cfg) (n : Node) (q : Req) (cp : CpResp) (bs : List Nat)
     (hh : cfg.require ≤ q.baseHeight) (h1 : cp.isV2 = true) (h2 : cp.onePayout = true)
-    (h3 : sameId U cp.blk q.base = true) (h4 : cp.commitOk = true)
+    (h3 : sameId U cp.blk q.base = true) (h4 : cp.commitOk = true) (h4' : (U cp.blk).orphan = true)
     (h5 : bs.length = q.hdrs.length) (h6 : sameId U (bs.getLastD 0) (q.hdrs.getLastD 0) = true)
     (hbad : validateChain U cp.genuine cp.blk bs = false) :
     (stepBatch U cfg n q ⟨some cp, some bs⟩).2 = .ban := by
-  simp only [stepBatch, gateBatch, hh, h1, h2, h3, h4, h5, h6, hbad]; simp
+  simp only [stepBatch, gateBatch, hh, h1, h2, h3, h4, h4', h5, h6, hbad]; simp
 
 /-- **misbehaviour ⇒ ban (3)**: below the require height, blocks that carry the validated
 header IDs but contain a block failing `ValidateOrphan` are answered with `ban`, at whatever
